@@ -87,6 +87,20 @@ Theorem C09_delete_batch : forall key open dec k ids st,
 Proof. exact c_delete_all. Qed.
 Print Assumptions C09_delete_batch.
 
+(* List over the file names of the directory: onDiskStore.List yields one entry for every regular file and filters nothing
+   (extracted: list_yields_every_file).  A directory holding exactly the files of the IDs [ids] (files are named
+   id.String(), which parses back) lists exactly [ids] - also the zero ID (the nil UUID is a valid ID). *)
+Theorem C09_list_yields_every_stored_id : forall (name : Type) (str : N -> name) (parse : name -> option N),
+  (forall i, parse (str i) = Some i) ->
+  forall ids, list_names parse list_yields_every_file (map str ids) = ids.
+Proof. exact list_names_exact. Qed.
+Print Assumptions C09_list_yields_every_stored_id.
+
+Theorem C09_list_dropping_zero_id_refuted : exists (ids : list N),
+  list_names (fun n : N => Some n) false (map (fun i => i) ids) <> ids.
+Proof. exact list_names_filter_refuted. Qed.
+Print Assumptions C09_list_dropping_zero_id_refuted.
+
 (* every history of Set/Delete on the same and on different IDs (Get/Set/Delete of one ID are atomic under the per-ID
    lock): each ID reads back the bytes of its last Set, or "no file" after a Delete; List yields exactly the stored
    IDs, each once *)
